@@ -421,3 +421,23 @@ def register(reg):      # noqa: F811
       doc='NCD/NSC (nothing reported) => no row below the MSA reaches 1 okta')
     L('prop.C02.nsc_if_cloud_above', direct=_nsc_bwd_final,
       doc='a row at/above the MSA with okta >= 1 and nothing flagged => contradiction; hence NSC is returned')
+
+
+def _c03_mono():
+    """the okta never decreases with the count (same total, any buffers)"""
+    n, n2, m, max0, max8 = z3.Ints('n n2 m max0 max8')
+    return [0 <= n, n <= n2, n2 <= m, m >= 1], okta_of(n, m, max0, max8) <= okta_of(n2, m, max0, max8)
+
+
+def _c03_range():
+    n, m, max0, max8 = z3.Ints('n m max0 max8')
+    return [0 <= n, n <= m, m >= 1], z3.And(okta_of(n, m, max0, max8) >= 0, okta_of(n, m, max0, max8) <= 8)
+
+
+_register_6 = register
+
+
+def register(reg):      # noqa: F811
+    _register_6(reg)
+    reg.add_lemma(Lemma('prop.C03.mono', direct=_c03_mono, properties=('C03',), doc='okta non-decreasing in the hit count'))
+    reg.add_lemma(Lemma('prop.C03.range', direct=_c03_range, properties=('C03',), doc='okta in 0..8'))
